@@ -2,6 +2,7 @@ import DmrVerif.Lemmas.CrcPoly
 import DmrVerif.Lemmas.CrcFront
 import DmrVerif.Lemmas.CrcStream
 import DmrVerif.Lemmas.CrcOnto
+import DmrVerif.Lemmas.CrcConfigs
 import DmrVerif.Props.C05a
 
 /-!
@@ -481,6 +482,147 @@ example : streamBitwise Gen.crc16 [bytesToBits [0x12, 0x34], zeros 16, [false]]
 /-- a (data, mask) pair whose CRC-CCITT result is exactly 0: `check` accepts 0 for it and nothing else -/
 example : Crc.crc16 [0x7c, 0x45] 0xAAAA = .ok 0 ∧ crc16Check [0x7c, 0x45] 0 0xAAAA = .ok true
     ∧ crc16Check [0x7c, 0x45] 1 0xAAAA = .ok false ∧ crc16Check [0x7c, 0x46] 0 0xAAAA = .ok false := by
+  decide +kernel
+
+/-! ## round 3: any configuration, any history of public calls, and every wrong value
+
+The non-default configurations and the calls outside the documented workflow (`reverse()`, assignments
+to `.register`) matter to the property only as *history*: whatever happened before — on the same
+object (`standard_after_history`) or on other objects (the model is a pure function of the object's
+own configuration and calls; the process-wide lookup table is `lookupTable width polynomial`,
+`lookup_table_key`, whose entries are the remainders of their indices, `lookup_table_entry` — that the
+running code never writes to a cached table is re-checked entry by entry after every history by
+`harness/props/c05.py`) — the standard engines return the remainder.  `Model/CrcConfigs.lean`,
+driver op `crc.cfg`. -/
+
+/-- the lookup table a table register holds depends on width and polynomial only (the key of the
+process-wide cache), not on feed width, initial value, final xor or the reversal flags -/
+theorem lookup_table_key (c c' : CrcConfig) (hw : c.w = c'.w) (hp : c.poly = c'.poly) :
+    (regKind c true).tbl = (regKind c' true).tbl := by
+  simp [regKind, hw, hp]
+
+/-- every entry of that table is the remainder of its index, `idx(x)·x^w mod G`, for every width and
+polynomial -/
+theorem lookup_table_entry (w poly idx : Nat) (h : idx < 2 ^ calcFeedWidth w) :
+    ∃ e, (lookupTable w poly)[idx]? = some e ∧ e.length = w
+      ∧ toPoly e = (toPoly (natToBits (calcFeedWidth w) idx) * X ^ w) %ₘ genPoly (defaultConfig w poly) := by
+  refine ⟨tableEntry w poly idx, lookupTable_get w poly idx h, ?_, ?_⟩
+  · exact calcBitwise_length (defaultConfig w poly) _
+  · exact (bitwise_eq_rem (defaultConfig w poly) (calcFeedWidth_pos w) ⟨rfl, rfl, rfl⟩ _).1
+
+/-- **Any configuration** (every field of `BitCrcConfiguration` but `reverse_input_bytes`, any positive
+feed width): the check sum is `R` or — with `reverse_output_bytes` — its reversal, xor the final value,
+where `R(x) = (init(x)·x^|m| + m(x)·x^w) mod G`; the table register returns the same whenever the feed
+width is the derived one -/
+theorem any_config (c : CrcConfig) (hfw : 0 < c.fw) (bits : Bits) :
+    ∃ R : Bits, R.length = c.w
+      ∧ toPoly R = (toPoly (initReg c) * X ^ bits.length + toPoly bits * X ^ c.w) %ₘ genPoly c
+      ∧ calcBitwise c bits = xorBits (if c.revOut then R.reverse else R) (natToBits c.w c.xorout)
+      ∧ (TableOk c → calcTable c false bits = .ok (calcBitwise c bits)) := by
+  refine ⟨procBits (polyBits c) (initReg c) bits, ?_, ?_, ?_, fun h => calcTable_eq_bitwise c h bits⟩
+  · rw [procBits_length _ _ _ (by rw [polyBits_length, initReg_length]), initReg_length]
+  · exact toPoly_procBits c _ _ (initReg_length c)
+  · rw [calcBitwise_eq c hfw]; rfl
+
+/-- **History independence on one object.**  Whatever public calls were made before on a register
+object or calculator of an ETSI configuration — `reverse()`, assignments to `.register`, digests,
+updates, check sums, in any number and order, from any register content `r`, as long as none raised —
+afterwards the documented workflow returns at every `update` the register of the pieces fed so far and at
+`digest` the one-shot check sum (the remainder: `bitwise_eq_rem`), `calculate_checksum` returns the
+check sum and `verify_checksum` accepts exactly it -/
+theorem standard_after_history (c : CrcConfig) (h : c ∈ configs) (table : Bool) (r r' : Bits)
+    (hist : List CfgAct) (outs : List Bits)
+    (hh : cfgRun (regKind c table) r hist = (outs, .ok r')) (pieces : List Bits) (bits : Bits) (e : Int) :
+    (cfgRun (regKind c table) r (hist ++ (workflow false pieces).map RegAct.toCfg)).1
+        = outs ++ (prefixRegs (polyBits c) (zeros c.w) pieces ++ [calcBitwise c pieces.flatten])
+    ∧ (cfgRun (regKind c table) r (hist ++ [.sum false bits])).1 = outs ++ [calcBitwise c bits]
+    ∧ (cfgRun (regKind c table) r (hist ++ [.verify false bits e])).1
+        = outs ++ [[decide ((bitsToNat (calcBitwise c bits) : Int) = e)]] := by
+  have hok := ok h
+  have hri : (regKind c table).c.revIn = false := hok.revIn
+  have hk := regKind_ok c table hok.table
+  refine ⟨?_, ?_, ?_⟩
+  · rw [cfgRun_append, hh]
+    simp only
+    rw [(cfgRun_toCfg _ hri r' _).1, (register_workflow c h table r' pieces).1]
+  · rw [cfgRun_append, hh]
+    obtain ⟨r'', hs⟩ := cfgStep_sum _ hk hri r' bits
+    simp only [cfgRun, hs, Option.toList, List.append_nil]
+    rfl
+  · rw [cfgRun_append, hh]
+    obtain ⟨r'', hs⟩ := cfgStep_verify _ hk hri r' bits e
+    simp only [cfgRun, hs, Option.toList, List.append_nil]
+    rfl
+
+/-- **No other value is accepted** by any `check` / `verify_checksum`: in particular no systematic
+transform `f` of the computed value — its octets or bits in reverse order, halves or octet pairs swapped,
+complemented, rotated, shifted, xor another data type's mask, the value of another CRC flavour … — unless
+`f` happens to leave that value unchanged (an out-of-range `f x` is refused by the range assert,
+`check_iff`) -/
+theorem wrong_value_rejected (f : Nat → Nat) (data : Bytes) (bits : Bits) (mask x : Nat) (hne : f x ≠ x) :
+    (Crc.crc8 false bits = .ok x → f x ≤ 255 → crc8Check false bits (f x) = .ok false)
+    ∧ (Crc.crc16 data mask = .ok x → f x ≤ 65535 → crc16Check data (f x) mask = .ok false)
+    ∧ (Crc.crc32 data = .ok x → f x ≤ 4294967295 → crc32Check data (f x) = .ok false)
+    ∧ (∀ (serial : Int) (c32 : Crc32Arg), Crc.crc9 data serial mask c32 = .ok x → f x ≤ 511 →
+        crc9Check data serial (f x) mask c32 = .ok false)
+    ∧ (∀ c : CrcConfig, x = bitsToNat (calcBitwise c bits) → verifyBitwise c bits (f x) = false) := by
+  have key : ∀ {chk : Except CrcErr Bool} {cal : Except CrcErr Nat},
+      (∃ b, chk = .ok b ∧ (b = true ↔ cal = .ok (f x))) → cal = .ok x → chk = .ok false := by
+    intro chk cal ⟨b, hb, hiff⟩ hc
+    cases b with
+    | false => exact hb
+    | true =>
+      have := hiff.mp rfl
+      rw [hc] at this
+      exact absurd (Except.ok.inj this).symm hne
+  refine ⟨?_, ?_, ?_, ?_, ?_⟩
+  · intro hc hr; exact key ((check_iff data bits mask (f x)).1 hr) hc
+  · intro hc hr; exact key ((check_iff data bits mask (f x)).2.1 hr) hc
+  · intro hc hr; exact key ((check_iff data bits mask (f x)).2.2.1 hr) hc
+  · intro serial c32 hc hr
+    rw [(crc9_check_iff data serial mask c32 (f x) x hc).1 hr]
+    congr 1
+    exact decide_eq_false (fun h => hne h.symm)
+  · intro c hx
+    unfold verifyBitwise
+    rw [← hx]
+    exact beq_false_of_ne (fun h => hne (Int.ofNat_inj.mp h).symm)
+
+/-- the four octets of a 32-bit value in reverse order (the CRC-32 as the last data block carries it) -/
+def octetsReversed32 (x : Nat) : Nat :=
+  x % 256 * 16777216 + x / 256 % 256 * 65536 + x / 65536 % 256 * 256 + x / 16777216 % 256
+
+/-- … so `CRC32.check` rejects the octet-reversed CRC-32 unless the value is an octet palindrome -/
+theorem crc32_octets_reversed_rejected (data : Bytes) (x : Nat) (h : Crc.crc32 data = .ok x)
+    (hne : octetsReversed32 x ≠ x) : crc32Check data (octetsReversed32 x) = .ok false :=
+  (wrong_value_rejected octetsReversed32 data [] 0 x hne).2.2.1 h (by unfold octetsReversed32; omega)
+
+/-- non-vacuity: `0xF5A5832E` is the CRC-32 of 01 02 03 04, its octet reversal `0x2E83A5F5` is rejected -/
+example : Crc.crc32 [1, 2, 3, 4] = .ok 0xF5A5832E ∧ octetsReversed32 0xF5A5832E = 0x2E83A5F5
+    ∧ crc32Check [1, 2, 3, 4] 0x2E83A5F5 = .ok false ∧ crc32Check [1, 2, 3, 4] 0xF5A5832E = .ok true := by
+  decide +kernel
+
+/-- non-vacuity: a CRC-8 table register with `reverse_output_bytes` (same width and polynomial as
+`Crc8.ETSI_DMR`: the same lookup table) through `init, update(one chunk), digest, reverse, .register,
+calculate_checksum`, and a standard one through `update, reverse, .register = …, .register, digest`
+followed by `calculate_checksum` / `verify_checksum`, which return the standard check sum `11010100` -/
+example :
+    let c : CrcConfig := { Gen.crc8 with revOut := true }
+    (cfgRun (regKind c true) (regNew (regKind c true))
+      [.init, .update false [true, false, true, true, false, false, true, true], .digest, .reverse, .get,
+       .sum false [true, false, true, true, false, false, true, true, true, false, false, false, true, true, true, true]]).1
+      = [[false, false, false, true, false, false, false, false], [false, false, false, false, true, false, false, false],
+         [false, false, false, true, false, false, false, false], [false, false, false, true, false, false, false, false],
+         [false, false, true, false, true, false, true, true]]
+    ∧ (regKind c true).tbl = (regKind Gen.crc8 true).tbl
+    ∧ (cfgRun (regKind Gen.crc8 true) (regNew (regKind Gen.crc8 true))
+      [.update false [true, false, true, true, false, false, true, true], .reverse,
+       .set [true, false, true, false, false, false, false, false], .get, .digest,
+       .sum false [true, false, true, true, false, false, true, true, true, false, false, false, true, true, true, true],
+       .verify false [true, false, true, true, false, false, true, true, true, false, false, false, true, true, true, true] 212]).1
+      = [[false, false, false, true, false, false, false, false], [false, false, false, false, true, false, false, false],
+         [true, false, true, false, false, false, false, false], [true, false, true, false, false, false, false, false],
+         [true, true, false, true, false, true, false, false], [true]] := by
   decide +kernel
 
 end Dmr.C05
